@@ -56,7 +56,76 @@ def run(rep, tier, seed):
                          invariants=['TypeOK'], max_states=800000)
     finally:
         chk.close()
+    file_handler_outputs(rep, seed)
+
+
+def file_handler_outputs(rep, seed):
+    """Outputs with the file data handler: the captured entry carries the bytes the file had when the call was made -
+    recorded run, replay of the same program, and replays whose code writes other bytes (same size, same path, same
+    modification time) at the first / the second call: the difference shows at exactly that entry."""
+    import logging
+    import os
+    import shutil
+    import tempfile
+    from playback.interception.files.output_file_interception import OutputInterceptionFileDataHandler
+    from playback.tape_recorder import TapeRecorder
+    from playback.tape_cassettes.in_memory.in_memory_tape_cassette import InMemoryTapeCassette
+    import pbverif.opclasses as oc
+    logging.disable(logging.CRITICAL)
+    tmp = tempfile.mkdtemp(prefix='pbverif-c03-')
+    try:
+        for same_path in (True, False):
+            cassette = InMemoryTapeCassette()
+            tr = TapeRecorder(cassette)
+            tr.enable_recording()
+            handler = OutputInterceptionFileDataHandler(0, 'src', 1)
+            plan = {'contents': [b'AAAA-first-file', b'BBBB-other-file']}
+
+            class Op(object):
+                @tr.operation()
+                def execute(self):
+                    for i, data in enumerate(plan['contents']):
+                        p = os.path.join(tmp, 'export.bin' if same_path else 'export-%d.bin' % i)
+                        with open(p, 'wb') as f:
+                            f.write(data)
+                        os.utime(p, (1600000000, 1600000000))
+                        self.upload(p)
+                    return len(plan['contents'])
+
+                @tr.intercept_output('upload', data_handler=handler)
+                def upload(self, src):
+                    return 'stored'
+            Op.__module__ = oc.__name__
+            Op.__qualname__ = Op.__name__ = 'FileOutOp_%d' % (id(Op) % 1000003)
+            setattr(oc, Op.__name__, Op)
+            Op().execute()
+            rid = cassette.get_last_recording_id()
+            recorded = list(plan['contents'])
+            for edit in (None, 0, 1):
+                sent = list(recorded)
+                if edit is not None:
+                    sent[edit] = bytes(bytearray(b ^ 0x21 for b in bytearray(sent[edit])))   # same size, other bytes
+                plan['contents'] = sent
+                pb = tr.play(rid, lambda recording: Op().execute())
+
+                def contents(outputs):
+                    outs = sorted((o for o in outputs if 'upload' in o.key and o.key.endswith('.output')), key=lambda o: o.key)
+                    return [handler.restore_output_from_recording(o.value).file_content for o in outs]
+                got_rec, got_pb = contents(pb.recorded_outputs), contents(pb.playback_outputs)
+                rep.evaluations += 1
+                if got_rec != recorded or got_pb != sent:
+                    rep.violation({'summary': 'file outputs (%s path, edit at call %s): recorded entries %r (expected %r), replayed '
+                                              'entries %r (the replayed code sent %r)'
+                                              % ('one' if same_path else 'two', edit, got_rec, recorded, got_pb, sent),
+                                   'signature': None}, replay={'kind': 'fileout', 'seed': seed})
+            plan['contents'] = recorded
+    finally:
+        shutil.rmtree(tmp, ignore_errors=True)
 
 
 def replay(rep, body):
+    if body.get('replay', {}).get('kind') == 'fileout':
+        n0 = len(rep.violations)
+        file_handler_outputs(rep, body['replay'].get('seed', 0))
+        return len(rep.violations) == n0
     return replay_file(rep, body, CATS)
